@@ -9,6 +9,12 @@ quiescence and reported.
   enable <p> | disable <p> | delete <p> | setupstream <p> <addr>
   tadd <p> <up|down> <tname> <type> <a1> <a2> <a3> <tox> | tdel <p> <tname> | treset <p>
   connect <p> <c> | send <c> <up|down> <hex> | close <c> <client|server>
+  sendnw <c> <up|down> <hex>      (as send, but reported at this instant: no timer fires)
+  abort <c> <client|server>       (the peer resets the connection)
+  pause <c> <client|server> <hex> | resume <c> <client|server>
+      (the peer stops reading and the other peer sends <hex>, enough to fill the kernel's
+       buffers / the peer reads again)
+  stallstop <p> <c> <disable|delete>   (a client is accepted while the stopping request runs)
 Reply: `<connect-result> C <conns…> P <proxies…> M <counters…>`
 -/
 namespace Toxi.Driver.E6
@@ -48,6 +54,10 @@ def fin (w : World) (res : String := "-") : State × String :=
   let w := w.settle
   (w, status w res)
 
+def finNow (w : World) (res : String := "-") : State × String :=
+  let w := w.settleNow
+  (w, status w res)
+
 /-- `io.Copy` reads the socket with a 32 KiB buffer: a large write reaches the link as
 several chunks. -/
 def chunks32k : Nat → List UInt8 → List (List UInt8)
@@ -64,8 +74,72 @@ def findConnProxy (w : World) (c : String) : Option String :=
 
 def apiWait (p : PProxy) : PProxy := PProxy.settle 50 p
 
+def stopOp (w : World) (p how : String) : Option World :=
+  if how == "disable" then updProxy w p PProxy.stop
+  else if how == "delete" then
+    (w.proxies.find? (·.name == p)).map fun x =>
+      { w with proxies := w.proxies.filter (·.name != p), gone := w.gone ++ [x.stop] }
+  else none
+
+def sendOp (w : World) (c d h : String) : Option World :=
+  match findConnProxy w c, bytesOfHex h with
+  | some p, some b =>
+    let ln := if d == "up" then upName c else downName c
+    updProxy w p (fun x => { x with coll := updLink x.coll ln (fun l => if l.srcEOF then l else { l with srcQ := l.srcQ ++ chunks32k 64 b }) })
+  | _, _ => none
+
+/-- Some peer of this proxy is not reading: an API call that reconfigures toxics would wait
+on blocked hand-offs (5 s each, outside C02's proviso) — such operations are not generated. -/
+def hasPaused (w : World) (p : String) : Bool :=
+  (w.proxies.find? (·.name == p)).any fun x => (allLinks x.coll).any fun nl => !nl.l.sinkReady && !nl.l.destClosed
+
 def step (w : State) (line : String) : State × String :=
   match words line with
+  | ["elapsed"] => (w, toString w.elapsed)
+  | ["blocked"] =>
+    -- how many sinks are stuck in a write towards a peer that does not read?
+    let n := ((w.proxies ++ w.gone).map fun p => ((allLinks p.coll).filter fun nl =>
+      nl.l.sinkPend.isSome && !nl.l.sinkReady && !nl.l.destClosed).length).foldl (· + ·) 0
+    (w, toString n)
+  | ["teardown"] =>
+    -- every proxy is stopped and deleted (the harness closes its sockets too)
+    let w1 : World := { w with proxies := [], gone := w.gone ++ w.proxies.map PProxy.stop }
+    fin w1
+  | ["sendnw", c, d, h] =>
+    (match sendOp w c d h with
+     | some w' => finNow w' | none => (w, "bad-op no-conn"))
+  | ["abort", c, who] =>
+    (match findConnProxy w c with
+     | some p =>
+       (match updProxy w p (fun x => x.abort c (who == "client")) with
+        | some w' => fin w' | none => (w, "bad-op"))
+     | none => (w, "bad-op no-conn"))
+  | ["pause", c, who, h] =>
+    -- the peer stops reading, then the other peer sends enough to fill the kernel's buffers
+    (match findConnProxy w c with
+     | some p => (match updProxy w p (fun x => x.setReading c (who == "client") false) with
+        | some w' => (match sendOp w' c (if who == "client" then "down" else "up") h with
+            | some w'' => fin w'' | none => (w, "bad-op"))
+        | none => (w, "bad-op"))
+     | none => (w, "bad-op no-conn"))
+  | ["resume", c, who] =>
+    (match findConnProxy w c with
+     | some p => (match updProxy w p (fun x => x.setReading c (who == "client") true) with
+        | some w' => fin w' | none => (w, "bad-op"))
+     | none => (w, "bad-op no-conn"))
+  | ["stallstop", p, c, how] =>
+    -- the accept loop has taken client `c` and is dialling the upstream while the stopping
+    -- request arrives: stop waits for the accept loop, so the pair is registered, then closed
+    (match w.proxies.find? (·.name == p) with
+     | none => (w, "bad-op")
+     | some x =>
+       let listening := (w.upstreams.find? (·.1 == x.upstream)).map (·.2) |>.getD false
+       if !x.enabled || !listening || (findConnProxy w c).isSome then (w, "bad-op") else
+       (match updProxy w p (fun x => x.accept c) with
+        -- (the dial completes about a second later: every pending timer has fired by then)
+        | some w1 => (match stopOp w1.settle p how with
+            | some w2 => fin w2 | none => (w, "bad-op"))
+        | none => (w, "bad-op")))
   | ["upstream", a, b] =>
     (match boolOf b with
      | some b => ({ w with upstreams := (w.upstreams.filter (·.1 != a)) ++ [(a, b)] }, "ok")
@@ -88,6 +162,7 @@ def step (w : State) (line : String) : State × String :=
     (match updProxy w p (fun x => if x.upstream == a then x else let en := x.enabled; { (x.stop) with upstream := a, enabled := en }) with
      | some w' => fin w' | none => (w, "bad-op"))
   | ["tadd", p, d, tname, ty, a1, a2, a3, tox] =>
+    if hasPaused w p then (w, "bad-op paused") else
     (match E3.parseDir d, [a1, a2, a3].mapM String.toInt?, boolOf tox with
      | some d, some [a1, a2, a3], some tox =>
        let cfg? : Option (Cfg × Nat × Bool) := if ty == "reset_peer" then some (.resetPeer a1, 0, false) else E3.mkCfg ty a1 a2 a3
@@ -99,11 +174,13 @@ def step (w : State) (line : String) : State × String :=
         | none => (w, "bad-op type"))
      | _, _, _ => (w, "bad-op"))
   | ["tdel", p, tname] =>
+    if hasPaused w p then (w, "bad-op paused") else
     (match updProxy w p (fun x => match x.coll.findToxic tname with
         | some (d, i) => { x with coll := x.coll.removeToxic d i }
         | none => x) with
      | some w' => fin w' | none => (w, "bad-op"))
   | ["treset", p] =>
+    if hasPaused w p then (w, "bad-op paused") else
     (match updProxy w p (fun x =>
         let q := ((x.coll.up.drop 1).map fun t => ApiStep.remove .up t.name) ++ ((x.coll.down.drop 1).map fun t => ApiStep.remove .down t.name)
         { x with coll := { x.coll with busy := true, queue := q } }) with
